@@ -45,22 +45,28 @@ func init() {
 	single("optimize", small, func(e *Env) error { return api.OptimizeFile(e.In[0], e.Out, conf()) })
 	single("optimize-zine", zine, func(e *Env) error { return api.OptimizeFile(e.In[0], e.Out, conf()) })
 	single("rotate", []string{"testRot.pdf"}, func(e *Env) error { return api.RotateFile(e.In[0], e.Out, 90, nil, conf()) })
-	single("encrypt", small, func(e *Env) error { return api.EncryptFile(e.In[0], e.Out, encConf()) })
+	single("encrypt", small, func(e *Env) error { return api.EncryptFile(e.In[0], e.Out, encConf()) }).OutPW = [2]string{upw, opw}
 	single("decrypt", small, func(e *Env) error {
 		c := encConf()
 		return api.DecryptFile(e.In[0], e.Out, c)
 	}).Prepare = prepareEncrypted
-	single("changeupw", small, func(e *Env) error {
+	o0 := single("changeupw", small, func(e *Env) error {
 		return api.ChangeUserPasswordFile(e.In[0], e.Out, upw, "new-user", model.NewAESConfiguration(upw, opw, 256))
-	}).Prepare = prepareEncrypted
-	single("changeopw", small, func(e *Env) error {
+	})
+	o0.Prepare = prepareEncrypted
+	o0.OutPW = [2]string{"new-user", opw}
+	o0 = single("changeopw", small, func(e *Env) error {
 		return api.ChangeOwnerPasswordFile(e.In[0], e.Out, opw, "new-owner", model.NewAESConfiguration(upw, opw, 256))
-	}).Prepare = prepareEncrypted
-	single("setperms", small, func(e *Env) error {
+	})
+	o0.Prepare = prepareEncrypted
+	o0.OutPW = [2]string{upw, "new-owner"}
+	o0 = single("setperms", small, func(e *Env) error {
 		c := encConf()
 		c.Permissions = model.PermissionsAll
 		return api.SetPermissionsFile(e.In[0], e.Out, c)
-	}).Prepare = prepareEncrypted
+	})
+	o0.Prepare = prepareEncrypted
+	o0.OutPW = [2]string{upw, opw}
 	single("keywords-add", small, func(e *Env) error {
 		return api.AddKeywordsFile(e.In[0], e.Out, []string{"alpha", "Ünicode ключ"}, conf())
 	})
@@ -290,6 +296,10 @@ func init() {
 		return api.MultiFillFormFile(e.In[0], e.Aux[0], e.OutDir, filepath.Base(e.In[0]), true, conf())
 	})
 	o.Aux = []string{"samples/form/multifill/json/english.json"}
+	o = outdir("multifill-csv-merge", []string{"samples/form/demoSinglePage/english.pdf"}, func(e *Env) error {
+		return api.MultiFillFormFile(e.In[0], e.Aux[0], e.OutDir, filepath.Base(e.In[0]), true, conf())
+	})
+	o.Aux = []string{"samples/form/multifill/csv/english.csv"}
 	o = outdir("multifill-csv", []string{"samples/form/demoSinglePage/english.pdf"}, func(e *Env) error {
 		return api.MultiFillFormFile(e.In[0], e.Aux[0], e.OutDir, filepath.Base(e.In[0]), false, conf())
 	})
